@@ -66,6 +66,7 @@ func goBodyTable(c *Ctx, pkgPath string, rule string) ([]layout.Ev, bool) {
 func c04(c *Ctx) {
 	p, R := c.Node(), c.R
 	R.Trust("go/types + go/ast + go/ssa", "encoding/binary writes fixed-size integers at their type width", "hand-written subset parsers for Solidity and Ralph (internal/cparse); BytesLib.toUintN reads N/8 bytes big-endian at the given offset; Ralph byteVecSlice!(b,from,to), u256FromNByte!, keccak256! as documented", "keccak256 itself")
+	loopVarRule(c, p, "C04.loopvar", pkgVAA)
 	R.Assumption("timestamps outside the 32-bit wire range are outside the property (C05 states the range)")
 
 	// ---- C04.layout-go
